@@ -907,6 +907,8 @@ def rule_bpreg(ctx, rep):
     pat.require(keep, "bp: unregister-clears-tls instance vanished")
 
 
+META["explanation"] += " " + "Also (rounds 11-12): every path of read_lock stores / of read_unlock decrements the reader word; the put-back of quiescent readers is a splice; the leader touches a waiter's node only until it hands it back; plain list.h traversal macros (witness/list.c)."
+
 RULES = [
     ("C01.skel", rule_skel),
     ("C01.scan", rule_scan),
